@@ -210,11 +210,16 @@ def judge(ctx, name, spec, step, obj, pr, exact=True):
 
 
 # ------------------------------------------------------------------ stage H: query histories
-def errq_cfg(dev=False, emit=True):
-    defs = {"Dev": tlc.tla({"CachesByIdentity": bool(dev)})}
+ERRQ_DEVS = {"CachesByIdentity": "PureFunction", "QueryTouchesTable": "QueryIsPure", "QueryWritesArgument": "ArgumentsUnchanged",
+             "ResultBufferReused": "EarlierResultsUnchanged"}
+
+
+def errq_cfg(dev=None, emit=True):
+    dev = "CachesByIdentity" if dev is True else dev
+    defs = {"Dev": tlc.tla({k: (k == dev) for k in ERRQ_DEVS})}
     cfg = tlc.cfg_text(constants={"Steps": tlc.tla(set(STEPS)), "MaxShift": str(MAXSHIFT), "Fns": tlc.tla(set(FNS)),
                                   "Hows": tlc.tla(set(HOWS))},
-                       defs=defs, invariants=["TypeOK", "PureFunction"], view="View",
+                       defs=defs, invariants=["TypeOK", "PureFunction", "QueryIsPure", "ArgumentsUnchanged", "EarlierResultsUnchanged"], view="View",
                        action_constraints=["Emit"] if emit else [])
     return cfg, defs
 
@@ -242,6 +247,7 @@ def run_history(job):
     buf = BASE.copy()
     shift = 0
     okc, viol = 0, []
+    sym0, prev = np.array(obj.symbols, copy=True), None       # call discipline: object state / previously returned array
     for i, e in enumerate(edges):
         if e["fn"] == "advance":
             buf += e["d"]                       # in place: same object, new contents
@@ -255,11 +261,13 @@ def run_history(job):
         if how in ("scalar", "int"):
             values = values[j]
         exp, at = expected_query(pr, fn, values, L)
+        snap = np.array(arg, copy=True) if isinstance(arg, np.ndarray) else (list(arg) if isinstance(arg, list) else arg)
         try:
             call = {"SER": lambda: obj.calcTheoreticalSER(arg), "BER": lambda: obj.calcTheoreticalBER(arg),
                     "PER": lambda: obj.calcTheoreticalPER(arg, L), "SE": lambda: obj.calcTheoreticalSpectralEfficiency(arg, L),
                     "SE0": lambda: obj.calcTheoreticalSpectralEfficiency(arg)}[fn]
-            got = np.asarray(call(), dtype=float)
+            raw = call()
+            got = np.asarray(raw, dtype=float)
         except TypeError as ex:
             if how == "list":                   # lists are outside "scalars or arrays"; refusing them is not judged
                 continue
@@ -273,9 +281,16 @@ def run_history(job):
                                           f"returned {np.atleast_1d(got).tolist()}, the curve at these values is {np.atleast_1d(exp).tolist()} "
                                           f"(step {i} of the history {[x['fn'] + ':' + x['how'] for x in edges[:i + 1]]})"})
             break
-        if not np.array_equal(buf, BASE + shift):
-            viol.append({"step": i, "what": f"{fn}({how}) modified the caller's SNR array"})
+        if not np.array_equal(buf, BASE + shift) or (isinstance(arg, (np.ndarray, list)) and not np.array_equal(np.asarray(arg), np.asarray(snap))):
+            viol.append({"step": i, "what": f"ArgumentsUnchanged: {fn}({how}) modified the caller's SNR argument"})
             break
+        if prev is not None and not np.array_equal(prev[0], prev[1]):
+            viol.append({"step": i, "what": f"EarlierResultsUnchanged: {fn}({how}) overwrote the array returned by the previous query"})
+            break
+        if not (np.asarray(obj.symbols).shape == sym0.shape and np.array_equal(np.asarray(obj.symbols), sym0)):
+            viol.append({"step": i, "what": f"QueryIsPure: {fn}({how}) changed the symbol table of the modulator"})
+            break
+        prev = (raw, np.array(raw, copy=True)) if isinstance(raw, np.ndarray) else None
         okc += 1
     return okc, viol
 
@@ -284,14 +299,16 @@ def history_stage(ctx, objects):
     """objects: list of (spec, params).  Returns number of paths replayed."""
     from concurrent.futures import ThreadPoolExecutor
     import random
-    with ThreadPoolExecutor(2) as ex:
+    with ThreadPoolExecutor(min(3, cc.nthreads())) as ex:
         f1 = ex.submit(lambda: tlc.run(ERRQ, errq_cfg()[0], defs=errq_cfg()[1], coverage=True, timeout=900))
-        f2 = ex.submit(lambda: tlc.run(ERRQ, errq_cfg(dev=True, emit=False)[0], defs=errq_cfg(dev=True)[1], timeout=900))
-        r, rdev = f1.result(), f2.result()
+        fd = {d: ex.submit(lambda d=d: tlc.run(ERRQ, errq_cfg(dev=d, emit=False)[0], defs=errq_cfg(dev=d)[1], timeout=900)) for d in ERRQ_DEVS}
+        r = f1.result()
+        for d, f in fd.items():
+            rdev = f.result()
+            if rdev.violated != ERRQ_DEVS[d]:
+                raise tlc.TlcError(f"ErrQuery.tla: Dev.{d} was expected to violate {ERRQ_DEVS[d]}, TLC reported {rdev.violated}")
+            ctx.notes.setdefault("deviations_refuted_by_model", {})[d] = rdev.violated
     ctx.account(r, ERRQ, "query histories")
-    if rdev.violated != "PureFunction":
-        raise tlc.TlcError(f"ErrQuery.tla: Dev.CachesByIdentity was expected to violate PureFunction, TLC reported {rdev.violated}")
-    ctx.notes.setdefault("deviations_refuted_by_model", {})["CachesByIdentity"] = rdev.violated
     if not any(e["fn"] != "advance" for e in r.emitted):
         raise tlc.TlcError("ErrQuery.tla emitted no query transition (vacuous history stage)")
     g = graph.Graph(r.emitted, label=lambda e: graph.key([e["fn"], e["how"], e["d"]]))
